@@ -1664,7 +1664,7 @@ def _run(ctx):
         n2 = int(rng.integers(1, min(NG, 300) + 1))
         desc = {'wl': 'grids', 'n': n, 'n2': n2, 'dx': dx, 'class': f'grid:{parity(n)}{parity(n2)}'}
         ctx.case(desc)
-        if n <= FT_MAX and n % 2 == 0 or n % 64 == 1:
+        if n <= FT_MAX and (n % 2 == 0 or n % 64 == 1):
             # class F: the other consumers of fftrange / forward_ft_unit / make_xy_grid run first, on the same axis lengths
             FOREIGN['last'] = foreign_traffic(ctx, [n, n2], heavy=(n % 8 == 0 and n <= 128))
         with ctx.guard('C04/grids', desc):
